@@ -307,7 +307,8 @@ func (ex *Exec) readerBytes(iv IfaceV) ([]*Term, bool) {
 }
 
 // parseFloatDigits is the contract of strconv.ParseFloat(s, 64) on tokens made of an optional
-// sign and 1..15 decimal digits (decided per byte under the path condition): the exact integer.
+// sign and 1..15 decimal digits (decided per byte under the path condition) with at most one
+// decimal point: the exact integer, or its correctly rounded quotient by the power of ten.
 // ok=false for any other shape.
 func (ex *Exec) parseFloatDigits(s StringV) (Value, bool) {
 	st := ex.st
@@ -326,24 +327,25 @@ func (ex *Exec) parseFloatDigits(s StringV) (Value, bool) {
 		// not settled by the interval domain: ask the solver (a recorded decision)
 		return ex.branch(st.And(st.Bin(OULe, st.BV(8, '0'), b), st.Bin(OULe, b, st.BV(8, '9'))))
 	}
-	if !isDigit(bs[0]) {
-		if bs[0].Op != OConst {
-			return nil, false
-		}
-		switch byte(bs[0].C) {
-		case '-':
-			neg = true
-		case '+':
-		default:
-			return nil, false
-		}
+	if bs[0].Op == OConst && (bs[0].C == '-' || bs[0].C == '+') {
+		neg = bs[0].C == '-'
 		bs = bs[1:]
+	}
+	// one concrete decimal point: [sign]digits.digits is the correctly rounded quotient of the
+	// digit string read as an integer and the power of ten (both exact in float64)
+	frac := -1
+	for i, b := range bs {
+		if b.Op == OConst && b.C == '.' {
+			frac = len(bs) - 1 - i
+			bs = append(append([]*Term{}, bs[:i]...), bs[i+1:]...)
+			break
+		}
 	}
 	if len(bs) == 0 || len(bs) > 15 {
 		return nil, false
 	}
 	val := st.BV(64, 0)
-	if m, ok := ex.decimalOf(bs); ok {
+	if m, ok := ex.decimalOf(bs); ok && frac < 0 {
 		val = m // the text is the decimal form of m: reading it gives m
 	} else {
 		for _, b := range bs {
@@ -354,15 +356,22 @@ func (ex *Exec) parseFloatDigits(s StringV) (Value, bool) {
 		}
 	}
 	var f *Term
+	if frac > 0 {
+		f = st.FBin(OFDiv, st.mkIntFloat(val, digitBits(len(bs))), st.FP(float64(pow10[frac])))
+		if neg {
+			f = st.FUn(OFNeg, f)
+		}
+		return TupleV{f, IfaceV{}}, true
+	}
 	if neg {
 		// -0 for a zero magnitude, as ParseFloat gives
 		if ex.branch(st.Eq(val, st.BV(64, 0))) {
 			f = st.FP(math.Copysign(0, -1))
 		} else {
-			f = st.mkIntFloat(st.Neg(val), 52)
+			f = st.mkIntFloat(st.Neg(val), digitBits(len(bs)))
 		}
 	} else {
-		f = st.mkIntFloat(val, 52)
+		f = st.mkIntFloat(val, digitBits(len(bs)))
 	}
 	return TupleV{f, IfaceV{}}, true
 }
@@ -389,4 +398,16 @@ func init() {
 			return prevPF(ex, fn, a)
 		}
 	}()
+}
+
+// digitBits: a signed bit bound for (plus or minus) a number of n decimal digits.
+func digitBits(n int) int {
+	b := 2
+	for v := uint64(1); n > 0; n-- {
+		v *= 10
+		for uint64(1)<<uint(b-1) <= v {
+			b++
+		}
+	}
+	return b
 }
